@@ -144,6 +144,16 @@ def run(db, chk):
              min_instances=7)
     chk.rule("C07-G3", "all neighbour accessors use the same count and the same (cached) index list",
              min_instances=7)
+    chk.rule("C07-G8", "the (row, col) accessors report, for every neighbour with flat index f, the row and "
+             "column of f itself (row * ncols + col == f, within the shape), including neighbours reached "
+             "across looped borders: interpretation on representative shapes with the wrapped queen "
+             "neighbourhood of every node as the cached index list, the library's own ravel / unravel "
+             "helpers included", min_instances=1)
+    chk.rule("C07-G9", "the per-code distance table gives every neighbour offset its Euclidean step length "
+             "(dy for a row step, dx for a column step, hypot(dy, dx) for a diagonal one), a step across a "
+             "looped border counting as ONE step: build_coded_neighbors_distances interpreted (with the "
+             "library's distance helper) on the offset tables of representative shapes for every looping "
+             "configuration and spacing dy != dx", min_instances=1)
     chk.rule("C07-G4", "by-reference accessors return exactly `neighbors_count` entries whatever "
              "the output container held before (query-order independence)", min_instances=14)
     n_sc = 0
@@ -349,6 +359,8 @@ def run(db, chk):
                extra={"unit": uname})
         # ---- G4: by-reference accessors leave exactly `count` entries, whatever the container held
         n_sc += accessor_sizes(db, chk, uname)
+        n_sc += accessor_rowcol(db, chk, uname)
+        n_sc += distance_tables(db, chk, uname)
     chk.absorb(db, "C10", {"C10-X1"}, "C07-G6", "neighbour look-ups keep no storage shared between threads that a "
                "concurrent look-up on the same grid could overwrite (shared with C10-X1)",
                pred=lambda o: "apply_par" in o["instance"], min_instances=7)
@@ -431,4 +443,181 @@ def accessor_sizes(db, chk, uname):
             uname, f.name, ", ".join(p["n"] for p in f.params)), not bad, where=f.ploc, function=f.bn,
             construct="out-size(%s/%d)" % (f.name, len(f.params)), detail="; ".join(bad[:2]),
             extra={"unit": uname})
+    return n
+
+
+class RowColWorld(AccessorWorld):
+    """like AccessorWorld, but the index helpers are the library's own and the cached neighbour list
+    of node (r, c) is its queen neighbourhood on the torus (both axes looped: a valid configuration,
+    and a superset of every other configuration's lists)"""
+
+    def __init__(self, shape):
+        AccessorWorld.__init__(self, 8)
+        self.shape = shape
+
+    def nb(self, flat):
+        nr, nc = self.shape
+        r, c = divmod(flat, nc)
+        out = []
+        for dr in (-1, 0, 1):
+            for dc in (-1, 0, 1):
+                if dr or dc:
+                    f = ((r + dr) % nr) * nc + (c + dc) % nc
+                    if f != flat and f not in out:
+                        out.append(f)
+        return out
+
+    def before_call(self, it, fn, call, callee, frame):
+        name = callee.bn.split("::")[-1]
+        if name in ("ravel_idx", "unravel_idx"):
+            return NOT_HANDLED
+        if name in ("neighbors_count", "neighbors_count_impl"):
+            return len(self.nb(it.rv(it.eval(call["a"][0], frame))))
+        if name == "get_nb_indices_from_cache":
+            return PyVec(self.nb(it.rv(it.eval(call["a"][0], frame))))
+        return AccessorWorld.before_call(self, it, fn, call, callee, frame)
+
+
+def _rowcol_of(v):
+    if isinstance(v, (tuple, list)) and len(v) == 2:
+        return None, v[0], v[1]
+    if isinstance(v, Obj):
+        f = v.fields
+        if "row" in f and "col" in f:
+            return f.get("flatten_idx"), f["row"], f["col"]
+    return None
+
+
+def accessor_rowcol(db, chk, uname):
+    fns = [f for f in db.fns(unit=uname) if f.cls == "fastscapelib::raster_grid"
+           and f.name in ("neighbors_indices", "neighbors") and not f.is_lambda
+           and len(f.params) == 3 and f.params[-1].get("isref") and not f.params[-1].get("const")]
+    n = 0
+    if not fns:
+        if any(f.cls == "fastscapelib::raster_grid" for f in db.fns(unit=uname)):
+            raise AnalysisBroken("C07-G8: (row, col) neighbour accessors not instantiated in %s" % uname)
+        return 0
+    for f in fns:
+        bad = []
+        for shape in ((4, 5), (3, 3), (3, 4), (5, 3)):
+            nr, nc = shape
+            for r in range(nr):
+                for c in range(nc):
+                    n += 1
+                    w = RowColWorld(shape)
+                    it = Interp(w)
+                    this = Obj(f.cls, {"m_shape": PyVec([nr, nc]), "m_size": nr * nc})
+                    out = PyVec([])
+                    try:
+                        it.call_fn(f, this, [r, c, out])
+                    except ThrowEx as ex:
+                        bad.append("(%d, %d) on %dx%d threw %s" % (r, c, nr, nc, ex.text[:40]))
+                        continue
+                    want = w.nb(r * nc + c)
+                    if len(out) != len(want):
+                        bad.append("(%d, %d) on %dx%d: %d entries for %d neighbours" % (r, c, nr, nc, len(out), len(want)))
+                        continue
+                    for k, v in enumerate(out):
+                        rc = _rowcol_of(it.rv(v) if not isinstance(v, (tuple, list, Obj)) else v)
+                        if rc is None:
+                            raise AnalysisBroken("C07-G8: entry %r of %s is not understood" % (v, f.bn))
+                        fi, rr, cc = rc
+                        exp = divmod(want[k], nc)
+                        if (rr, cc) != exp or (fi is not None and fi != want[k]):
+                            bad.append("node (%d, %d) on a %dx%d looped raster: neighbour %d reported at (%s, %s), "
+                                       "it is at (%d, %d)" % (r, c, nr, nc, want[k], rr, cc, exp[0], exp[1]))
+        chk.ob("C07-G8", "[%s] %s(%s): reported (row, col) is that of the neighbour's flat index" % (
+            uname, f.name, ", ".join(p["n"] for p in f.params)), not bad, where=f.ploc, function=f.bn,
+            construct="rowcol(%s)" % f.name, detail="; ".join(bad[:2]), extra={"unit": uname})
+    return n
+
+
+class DistWorld(GridWorld):
+    """concrete element-wise model of the few xtensor expressions of the distance helper"""
+
+    def sym_cmp(self, op, a, b):
+        raise AnalysisBroken("C07-G9: comparison %r %s %r" % (a, op, b))
+
+    def external(self, it, fn, call, frame):
+        bn = call.get("bn", "") or ""
+        name = bn.split("::")[-1]
+        args = call.get("a", [])
+
+        def V(i):
+            v = it.rv(it.eval(args[i], frame))
+            return list(v) if isinstance(v, (PyVec, list, tuple)) else v
+
+        def ew(f, *xs):
+            n = max([len(x) for x in xs if isinstance(x, list)] or [0])
+            if not n:
+                return f(*xs)
+            return [f(*[(x[i] if isinstance(x, list) else x) for x in xs]) for i in range(n)]
+        if bn in ("xt::adapt", "xt::cast", "xt::eval"):
+            return V(0)
+        if bn == "xt::equal":
+            return ew(lambda a, b: a == b, V(0), V(1))
+        if bn == "xt::not_equal":
+            return ew(lambda a, b: a != b, V(0), V(1))
+        if bn == "xt::where":
+            return ew(lambda c, a, b: a if c else b, V(0), V(1), V(2))
+        if bn in ("xt::square",):
+            return ew(lambda a: a * a, V(0))
+        if bn in ("xt::abs", "xt::fabs"):
+            return ew(abs, V(0))
+        if bn in ("xt::sqrt",):
+            return ew(lambda a: a ** 0.5, V(0))
+        if bn in ("xt::operator*", "xt::operator+", "xt::operator-", "xt::operator/") and len(args) == 2:
+            import operator as _o
+            f = {"*": _o.mul, "+": _o.add, "-": _o.sub, "/": _o.truediv}[bn[-1]]
+            return ew(f, V(0), V(1))
+        if bn == "xt::sum" and len(args) >= 1:
+            v = V(0)
+            return PyVec([sum(v)]) if isinstance(v, list) else PyVec([v])
+        if bn in ("sqrt", "std::sqrt"):
+            return V(0) ** 0.5
+        if bn in ("hypot", "std::hypot") and len(args) == 2:
+            return (V(0) ** 2 + V(1) ** 2) ** 0.5
+        if bn in ("std::abs", "abs", "std::fabs", "fabs", "std::labs", "std::llabs"):
+            return abs(V(0))
+        return NOT_HANDLED
+
+
+def distance_tables(db, chk, uname):
+    if not uname.startswith("raster"):
+        return 0
+    rc = {"raster_queen": "queen", "raster_rook": "rook", "raster_bishop": "bishop",
+          "raster_nocache": "queen"}[uname]
+    bco = db.fns("fastscapelib::raster_grid::build_coded_neighbors_offsets", unit=uname)
+    bcd = db.fns("fastscapelib::raster_grid::build_coded_neighbors_distances", unit=uname)
+    if not bco or not bcd:
+        raise AnalysisBroken("C07-G9: distance / offset table builders not instantiated in %s" % uname)
+    n = 0
+    dy, dx = 3.0, 4.0
+    for vloop, hloop in itertools.product((False, True), (False, True)):
+        for shape in ((4, 5), (3, 3)):
+            nr, nc = shape
+            bad = []
+            this = Obj("fastscapelib::raster_grid", {"m_shape": PyVec([nr, nc]), "m_size": nr * nc,
+                                                     "m_spacing": PyVec([dy, dx]),
+                                                     "m_bounds_status": bounds(vloop, hloop)})
+            it = Interp(DistWorld())
+            try:
+                table = it.rv(it.call_fn(bco[0], this, []))
+                this.fields["m_neighbor_offsets"] = table
+                dist = it.rv(it.call_fn(bcd[0], this, []))
+            except ThrowEx as ex:
+                raise AnalysisBroken("C07-G9: the table builders threw %s" % ex.text)
+            for code in range(9):
+                n += 1
+                offs = [(it.rv(o[0]), it.rv(o[1])) for o in table[code]]
+                got = [it.rv(d) for d in list(dist[code])[:len(offs)]]
+                for (ro, co), d in zip(offs, got):
+                    want = (((dy if ro else 0.0) ** 2) + ((dx if co else 0.0) ** 2)) ** 0.5
+                    if not isinstance(d, (int, float)) or abs(d - want) > 1e-9 * want:
+                        bad.append("node code %d, offset (%s, %s) on a %dx%d raster: distance %r, one step is %r"
+                                   % (code, ro, co, nr, nc, d, want))
+            chk.ob("C07-G9", "[%s] %s %dx%d, vertical loop %s, horizontal loop %s, spacing (3, 4)"
+                   % (uname, rc, nr, nc, vloop, hloop), not bad, where=bcd[0].ploc, function=bcd[0].bn,
+                   construct="distances(v%d,h%d)" % (vloop, hloop), detail="; ".join(bad[:2]),
+                   extra={"unit": uname})
     return n
